@@ -584,6 +584,13 @@ def run_property(pid, prop, units, by_test, tier, seed, scratch, args, t0):
                     path = save_text_replay(pid, job, "process crashed")
                 violations.append(("process-crash", path, tail(job.logfile, 3000)))
             else:
+                # keep the whole log of a shard that died or hung: it is the only evidence of what it was doing
+                try:
+                    d = os.path.join(build_dir(), "inconclusive")
+                    os.makedirs(d, exist_ok=True)
+                    shutil.copy(job.logfile, os.path.join(d, "%s-shard%d-%d.log" % (uname, job.shard, int(time.time()))))
+                except Exception:
+                    pass
                 inconclusive.append("%s shard %d: no result (rc=%s, timed_out=%s) %s" % (uname, job.shard, job.rc, job.timed_out, tail(job.logfile, 1500)))
             continue
         um["evaluations"] += r["evaluations"]
